@@ -17,6 +17,7 @@ import (
 	"perun.network/go-perun/client"
 	"perun.network/go-perun/wallet"
 	wtest "perun.network/go-perun/wallet/test"
+	"perun.network/go-perun/watcher"
 	"perun.network/go-perun/watcher/local"
 	"perun.network/go-perun/wire"
 	wiretest "perun.network/go-perun/wire/test"
@@ -197,6 +198,25 @@ type World struct {
 	PLog []PersistEvent
 }
 
+// dummyWatcher is a watcher that never reacts (used for a party that is not supposed to refute).
+type dummyWatcher struct{}
+type dummyPub struct{}
+type dummySub struct{ ch chan channel.AdjudicatorEvent }
+
+func (dummyPub) Publish(context.Context, channel.Transaction) error { return nil }
+func (s dummySub) EventStream() <-chan channel.AdjudicatorEvent     { return s.ch }
+func (dummySub) Err() error                                         { return nil }
+func (dummyWatcher) StopWatching(context.Context, channel.ID) error { return nil }
+func (dummyWatcher) StartWatchingLedgerChannel(context.Context, channel.SignedState) (watcher.StatesPub, watcher.AdjudicatorSub, error) {
+	return dummyPub{}, dummySub{make(chan channel.AdjudicatorEvent)}, nil
+}
+func (dummyWatcher) StartWatchingSubChannel(context.Context, channel.ID, channel.SignedState) (watcher.StatesPub, watcher.AdjudicatorSub, error) {
+	return dummyPub{}, dummySub{make(chan channel.AdjudicatorEvent)}, nil
+}
+
+// NoWatcher names the parties that get a watcher that never reacts (set before NewWorld).
+var NoWatcher = map[string]bool{}
+
 // InitialDeposit is what every party owns on the ledger at the start.
 const InitialDeposit = 100
 
@@ -211,11 +231,15 @@ func NewWorld(t *testing.T, seed int64, names ...string) *World {
 		p.WireAcc = wiretest.NewRandomAccountMap(w.Rng, channel.TestBackendID)
 		p.Backend = w.Ledger.NewBackend(n, p.Acc.Address())
 		w.Ledger.Deposit(p.Acc.Address(), w.Asset, InitialDeposit)
-		watcher, err := local.NewWatcher(p.Backend)
-		if err != nil {
-			t.Fatal(err)
+		var wt watcher.Watcher = dummyWatcher{}
+		if !NoWatcher[n] {
+			lw, err := local.NewWatcher(p.Backend)
+			if err != nil {
+				t.Fatal(err)
+			}
+			wt = lw
 		}
-		c, err := client.New(p.WireAddr(), w.Bus, p.Backend, p.Backend, map[wallet.BackendID]wallet.Wallet{channel.TestBackendID: p.Wallet}, watcher)
+		c, err := client.New(p.WireAddr(), w.Bus, p.Backend, p.Backend, map[wallet.BackendID]wallet.Wallet{channel.TestBackendID: p.Wallet}, wt)
 		if err != nil {
 			t.Fatal(err)
 		}
